@@ -559,8 +559,8 @@ pub fn run(c: &mut Ctx) {
         }
         match p {
             Ok(Some(x)) => {
-                if x.num_days_from_ce() as i64 != n - 1 || !(x < d) {
-                    c.fail("predecessor is not the previous day", &show_obs(&d));
+                if x.num_days_from_ce() as i64 != n - 1 || x.weekday() != d.weekday().pred() || !(x < d) {
+                    c.fail("predecessor is not the previous day with the previous weekday", &show_obs(&d));
                 }
             }
             Ok(None) => {
